@@ -300,6 +300,15 @@ def units(tier, seed):
         for obj in ("nanhole", "nanhalf"):
             k += 1
             descs.append(dict(engines=list(eng), gens=2, Mh=3, seed=s + k % 3, sprout={"kind": ("simple", "nbc")[k % 2], "L": 2}, obj=obj, box="B_asym", pop=(6, 10)[k % 2]))
+    # penalty objective (+-inf on a slab) with CMA-ES / local children; user-composed mechanism that keeps TWO candidates per deme
+    for eng in [e for e in shapes if len(e) >= 2 and (e[-1].startswith("CMA") or e[-1] == "LOC")]:
+        k += 1
+        descs.append(dict(engines=list(eng), gens=2, Mh=4, seed=s + k % 3, sprout={"kind": ("simple", "nbc")[k % 2], "L": 2}, obj="infhole", box=("B_asym", "B_sym")[k % 2]))
+    for eng in [e for e in shapes if len(e) >= 2][::2]:
+        k += 1
+        descs.append(dict(engines=list(eng), gens=1, Mh=4, seed=s + k % 3, obj=("twofunnel", "sphere_in")[k % 2], box=("B_asym", "B_sym")[k % 2],
+                          sprout={"kind": "composed", "L": 3, "gen": {"kind": "nbc", "factor": 1.0, "trunc": 1.0}, "deme_chain": [{"kind": "demelimit", "limit": 2 + k % 2}],
+                                  "tree_chain": [{"kind": "levellimit", "limit": 3}]}))
     # a memoising objective that returns the 0-d arrays it keeps (in-place sign flips would corrupt it)
     for eng in [e for e in shapes if len(e) == 2][::3] + [e for e in shapes if len(e) == 2 and e[1] == "LOC"]:
         k += 1
